@@ -81,6 +81,14 @@ class Marker:
         self.kind = kind
 
 
+class Closure:
+    """a nested `def` or a lambda, with the (live) environment it was defined in"""
+    __slots__ = ("fn", "env")
+
+    def __init__(self, fn, env):
+        self.fn, self.env = fn, env
+
+
 class PropV:
     __slots__ = ("p",)
 
@@ -118,6 +126,8 @@ class Interp:
         self.state = {"__isNonLinear": bool(nonlinear)}   # self.<attr> -> value
         self.asserts = []                 # Prop trees asserted on symbolic scalars
         self.depth = 0
+        self.pending = []         # (caller variable, value after in-place update inside an inlined helper, helper)
+        self.last_mutated = {}
         self.where = "?"
         self.algo = algo
 
@@ -132,37 +142,99 @@ class Interp:
         fn = self.methods.get(fname)
         if fn is None:
             raise TranslateError("%s: method %s not found in class _Simu" % (SIMU, fname))
+        return self.invoke(fn, [], args, fname)
+
+    PARAMS, MUTATED = "<params>", "<mutated>"
+
+    def invoke(self, fn, pos, kw, label, outer_env=None, method=True):
+        """Interpret a FunctionDef / Lambda.  pos: positional values (self excluded), kw: name -> value.
+        Returns (value).  Records in self.last_mutated the parameters updated in place (`p += ...`)."""
         a = fn.args
         if a.vararg or a.kwarg or a.posonlyargs or a.kwonlyargs:
-            self.err(fn, "unsupported signature of %s" % fname)
+            self.err(fn, "unsupported signature of %s" % label)
         names = [x.arg for x in a.args]
-        if not names or names[0] != "self":
-            self.err(fn, "%s is not an instance method" % fname)
-        env = {"self": Marker("self")}
-        defaults = dict(zip(names[len(names) - len(a.defaults):], a.defaults))
-        for n in names[1:]:
-            if n in args:
-                env[n] = args[n]
+        env = dict(outer_env) if outer_env is not None else {}
+        if method:
+            decos = [d.id if isinstance(d, ast.Name) else getattr(d, "attr", "?") for d in getattr(fn, "decorator_list", [])]
+            if any(d not in ("staticmethod", "classmethod", "property", "abstractmethod") for d in decos):
+                self.err(fn, "decorated method %s (%s)" % (label, decos))
+            if "staticmethod" in decos:
+                pass
+            elif "classmethod" in decos:
+                if not names:
+                    self.err(fn, "%s: classmethod without cls" % label)
+                env[names[0]] = Marker("class")
+                names = names[1:]
+            else:
+                if not names or names[0] != "self":
+                    self.err(fn, "%s is not an instance method" % label)
+                env["self"] = Marker("self")
+                names = names[1:]
+        if len(pos) > len(names):
+            self.err(fn, "%s called with too many arguments" % label)
+        given = dict(zip(names, pos))
+        for k, v in kw.items():
+            if k not in names:
+                self.err(fn, "%s has no parameter %s (signature changed)" % (label, k))
+            if k in given:
+                self.err(fn, "%s: parameter %s given twice" % (label, k))
+            given[k] = v
+        defaults = dict(zip(names[len(names) - len(a.defaults):], a.defaults)) if a.defaults else {}
+        for n in names:
+            if n in given:
+                env[n] = given[n]
             elif n in defaults:
                 env[n] = self.eval(defaults[n], env)
             else:
                 env[n] = Opaque("argument " + n)
-        for k in args:
-            if k not in names:
-                self.err(fn, "%s has no parameter %s (signature changed)" % (fname, k))
+        env[self.PARAMS] = set(n for n in names if n in given)
+        env[self.MUTATED] = {}
         saved = self.where
-        self.where = fname
+        self.where = label
         self.depth += 1
-        if self.depth > 6:
-            self.err(fn, "call depth")
         try:
-            self.block(fn.body, env)
-            res = None
-        except _Return as r:
-            res = r.value
+            if self.depth > 8:
+                self.err(fn, "call depth")
+            if isinstance(fn, ast.Lambda):
+                res = self.eval(fn.body, env)
+            else:
+                try:
+                    self.block(fn.body, env)
+                    res = None
+                except _Return as r:
+                    res = r.value
         finally:
             self.depth -= 1
             self.where = saved
+        self.last_mutated = env[self.MUTATED]
+        return res
+
+    def inline(self, n, fn, label, env, outer_env=None, method=True):
+        """Inline a call `n` (ast.Call) of a helper whose body is available.  If the body cannot be interpreted the
+        result is an untracked value (using it in a tracked computation fails then) and self's state is rolled back.
+        A parameter updated in place inside the helper (`b += ...`) must be handed back to the caller's variable by the
+        enclosing assignment (`b = helper(b, ...)`): numpy updates the caller's array, scipy.sparse does not, so only
+        then do both readings agree."""
+        pos = [self.eval(x, env) for x in n.args]
+        if any(isinstance(x, ast.Starred) for x in n.args) or any(k.arg is None for k in n.keywords):
+            self.err(n, "star-arguments in a call of %s" % label)
+        kw = {k.arg: self.eval(k.value, env) for k in n.keywords}
+        st_state, st_asserts, st_pending = dict(self.state), list(self.asserts), list(self.pending)
+        try:
+            res = self.invoke(fn, pos, kw, label, outer_env, method)
+        except TranslateError as ex:
+            self.state, self.asserts, self.pending = st_state, st_asserts, st_pending
+            return Opaque("%s(...) not interpretable: %s" % (label, str(ex)[-100:]))
+        names = [x.arg for x in fn.args.args]
+        if method and names and names[0] in ("self", "cls") and not any(
+                (isinstance(d, ast.Name) and d.id == "staticmethod") for d in getattr(fn, "decorator_list", [])):
+            names = names[1:]
+        argnode = dict(zip(names, n.args))
+        argnode.update({k.arg: k.value for k in n.keywords})
+        for pname, val in self.last_mutated.items():
+            node = argnode.get(pname)
+            if isinstance(node, ast.Name):
+                self.pending.append((node.id, val, label))
         return res
 
     # ---- statements ---------------------------------------------------------------
@@ -170,7 +242,33 @@ class Interp:
         for st in stmts:
             self.stmt(st, env)
 
+    def no_pending(self, st):
+        if self.pending:
+            var, _, label = self.pending[0]
+            self.pending = []
+            self.err(st, "%s updates its argument `%s` in place and the caller does not take the result back into `%s`" % (label, var, var))
+
     def stmt(self, st, env):
+        if not isinstance(st, (ast.If, ast.For)):
+            self.pending = []
+        if isinstance(st, ast.FunctionDef):
+            if st.decorator_list:
+                self.err(st, "decorated local function")
+            env[st.name] = Closure(st, env)
+            env.get(self.PARAMS, set()).discard(st.name)
+            return
+        if isinstance(st, ast.For):
+            if st.orelse:
+                self.err(st, "for-else")
+            self.pending = []
+            it = self.eval(st.iter, env)
+            self.no_pending(st)
+            if not isinstance(it, (tuple, list)):
+                self.err(st, "loop over something that is not a literal tuple/list: %s" % ast.unparse(st.iter)[:60])
+            for v in it:
+                self.assign(st.target, v, env)
+                self.block(st.body, env)
+            return
         if isinstance(st, ast.Expr):
             v = st.value
             if isinstance(v, ast.Constant) and isinstance(v.value, str):
@@ -183,14 +281,18 @@ class Interp:
         if isinstance(st, ast.Pass):
             return
         if isinstance(st, ast.Return):
-            raise _Return(None if st.value is None else self.eval(st.value, env))
+            val = None if st.value is None else self.eval(st.value, env)
+            self.no_pending(st)
+            raise _Return(val)
         if isinstance(st, ast.Raise):
             self.err(st, "this algorithm reaches `raise` (%s)" % ast.unparse(st)[:60])
         if isinstance(st, ast.Assert):
             self.do_assert(st, env)
             return
         if isinstance(st, ast.If):
+            self.pending = []
             c = self.eval(st.test, env)
+            self.no_pending(st)
             if not isinstance(c, bool):
                 self.err(st, "condition is not decidable from the algorithm: %s" % ast.unparse(st.test)[:80])
             self.block(st.body if c else st.orelse, env)
@@ -204,11 +306,20 @@ class Interp:
                     val = Opaque("unreadable right-hand side (%s)" % str(ex)[-120:])
                 else:
                     raise
+            for var, want, label in self.pending:
+                ok = isinstance(val, Sym) and isinstance(want, Sym) and val.e == want.e and \
+                    any(isinstance(tg, ast.Name) and tg.id == var for tg in st.targets)
+                if not ok:
+                    self.pending = []
+                    self.err(st, "%s updates its argument `%s` in place; the caller must assign the returned value back to `%s`" % (label, var, var))
+            self.pending = []
             for tg in st.targets:
                 self.assign(tg, val, env)
             return
         if isinstance(st, ast.AnnAssign) and st.value is not None:
-            self.assign(st.target, self.eval(st.value, env), env)
+            val = self.eval(st.value, env)
+            self.no_pending(st)
+            self.assign(st.target, val, env)
             return
         if isinstance(st, ast.AugAssign):
             if not isinstance(st.target, ast.Name):
@@ -216,13 +327,22 @@ class Interp:
             cur = env.get(st.target.id)
             if cur is None:
                 self.err(st, "augmented assignment to unbound %s" % st.target.id)
-            env[st.target.id] = self.binop(st.op, cur, self.eval(st.value, env), st)
+            rhs = self.eval(st.value, env)
+            self.no_pending(st)
+            new = self.binop(st.op, cur, rhs, st)
+            if st.target.id in env.get(self.PARAMS, ()) and isinstance(cur, Sym) and cur.t != S:
+                # `param += ...` updates the caller's array in place (numpy) or not (scipy.sparse)
+                if self.depth <= 1:
+                    self.err(st, "in-place update of the argument `%s` of an anchored method" % st.target.id)
+                env[self.MUTATED][st.target.id] = new
+            env[st.target.id] = new
             return
         self.err(st, "unsupported statement %s" % type(st).__name__)
 
     def assign(self, tg, val, env):
         if isinstance(tg, ast.Name):
             env[tg.id] = val
+            env.get(self.PARAMS, set()).discard(tg.id)
             return
         if isinstance(tg, (ast.Tuple, ast.List)):
             if not isinstance(val, tuple):
@@ -272,6 +392,8 @@ class Interp:
                 return env[n.id]
             if n.id == "AlgoType":
                 return Marker("AlgoType")
+            if n.id == "_Simu":
+                return Marker("class")
             if n.id in ("np", "sparse", "sla", "Tic", "Terminal", "MPI_RANK", "ResolType"):
                 return Marker("module:" + n.id)
             self.err(n, "unbound name %s" % n.id)
@@ -335,6 +457,8 @@ class Interp:
             return self.eval_compare(n, env)
         if isinstance(n, ast.BinOp):
             return self.binop(n.op, self.eval(n.left, env), self.eval(n.right, env), n)
+        if isinstance(n, ast.Lambda):
+            return Closure(n, env)
         if isinstance(n, ast.IfExp):
             c = self.eval(n.test, env)
             if not isinstance(c, bool):
@@ -371,7 +495,13 @@ class Interp:
                     return Marker("neumann_values")
                 if f.attr == "Bc_dofs_Neumann":
                     return Marker("neumann_dofs")
+                if f.attr in self.methods:
+                    return self.inline(n, self.methods[f.attr], f.attr, env)
                 return Opaque("self.%s(...)" % f.attr)
+            if isinstance(base, Marker) and base.kind == "class":
+                if f.attr in self.methods:
+                    return self.inline(n, self.methods[f.attr], f.attr, env)
+                return Opaque("_Simu.%s(...)" % f.attr)
             if isinstance(base, Marker) and base.kind == "AlgoType":
                 if f.attr in self.type_lists:
                     return [Enum(x) for x in self.type_lists[f.attr]]
@@ -394,6 +524,14 @@ class Interp:
                 self.err(n, "method call on a tracked value: %s" % ast.unparse(n)[:60])
             return Opaque("call " + ast.unparse(f)[:40])
         if isinstance(f, ast.Name):
+            if isinstance(env.get(f.id), Closure):
+                c = env[f.id]
+                return self.inline(n, c.fn, f.id, env, outer_env=c.env, method=False)
+            if f.id == "zip" and not n.keywords:
+                cols = [self.eval(x, env) for x in n.args]
+                if all(isinstance(c, (tuple, list)) for c in cols):
+                    return [tuple(r) for r in zip(*cols)]
+                return Opaque("zip")
             if f.id == "Tic":
                 return Marker("tic")
             if f.id == "len":
